@@ -297,7 +297,7 @@ func oneInput(text string, sel []opt, desc string, modelTree map[string]any) {
 			}
 		}
 	}
-	if desc != "corpus" && len(text) < 80 && strings.Contains(desc, ",") {
+	if desc != "corpus" && len(text) < 100 && len(text)%13 == 5 {
 		run.Sample(map[string]any{"input": text, "serialisers": len(sel)})
 	}
 }
